@@ -224,9 +224,13 @@ def main(argv=None):
         print("   obligation %s  config %s  (%d violating paths)\n   model %s\n   real code: %s" % (
             name, cid, n, json.dumps(o["model"]), json.dumps(o.get("concrete"), default=str)[:500]))
     if reported:
-        status = 1 if status == 0 else status
+        # a counterexample that replayed on the real code outranks harness diagnostics
+        # (which are still printed below)
+        status = 1
     if unreproduced and status == 0:
-        status = 3
+        # a model found under the fictitious interpretation of pow/log may be spurious:
+        # inconclusive; any other counterexample that does not replay is a harness error
+        status = 2 if all(o.get("uf") for _, _, o in unreproduced) else 3
         for cid, name, o in unreproduced[:5]:
             msgs.append("counterexample did not replay on the real code: %s %s model=%s info=%s" % (
                 cid, name, json.dumps(o.get("model")), json.dumps(o.get("info"), default=str)[:300]))
